@@ -457,6 +457,10 @@ func (r *Run) callSSA(caller *frame, callpos token.Pos, fn *ssa.Function, args [
 		r.noteFn(fn, true)
 		return ic(r, fr, args)
 	}
+	if r.stubs != nil && r.stubs[fn.String()] {
+		r.noteFn(fn, true)
+		return noop(r, fr, args)
+	}
 	if fn.Blocks == nil {
 		if fn.Synthetic != "" && strings.Contains(fn.Synthetic, "instantiation") {
 			// should have been instantiated
